@@ -11,7 +11,7 @@
    C05).  The value form is stated for map inputs: a node behind an input key is declared
    with a map input, anything else is excluded by Go's typing (the source would panic on the
    type assertion, the model answers e_type). *)
-From Eino Require Import Base.Util Model.Paradigm Model.StreamOps Model.StreamGenLib Model.ParadigmProg.
+From Eino Require Import Base.Util Model.Paradigm Model.StreamOps Model.C04GenLib Model.ParadigmProg.
 From Eino Require Gen.C04Keys.
 
 Lemma res_match_id' : forall {A} (r : res A),
